@@ -85,7 +85,7 @@ class SegTok(SymVal):
 
 class SentV(SymVal):
     "opaque sub-sentence"
-    def __init__(self, name, base=None): self.name, self.base = name, base
+    def __init__(self, name, base=None): self.name, self.base = name, base; self.id = z3.Int(f'{name}.id')     # equal sentences have equal ids
     def __repr__(self): return self.name
     def sym_getattr(self, it, name):
         if name == 'substitute':
@@ -181,6 +181,11 @@ class OperatedM(SentM):
         if name == 'operands': return tuple(self.operands)
         if name == 'lhs': return self.operands[0]
         if name == 'rhs': return self.operands[-1]
+        # helper methods the class defines for itself (plain functions): interpreted from source like the method under contract
+        import types as _t
+        for c in self.cls.__mro__:
+            if name in c.__dict__ and isinstance(c.__dict__[name], _t.FunctionType) and c.__module__.startswith('pytableaux'):
+                return self.method(it, name)[0]
         raise Outside(f'Operated.{name}')
     def sym_iter(self, it): return list(self.operands)
     def sym_len(self, it): return len(self.operands)
@@ -209,6 +214,19 @@ def lex_world():
         out = GenList()
         for x in xs: out.extend(it.iterate(x))
         return out
+    def ordered_set(it, xs=()):
+        "qsetf / qset (C18): the distinct items in first-occurrence order; opaque sentences may or may not be equal"
+        out = []
+        for x in it.iterate(xs):
+            dup = False
+            for y in out:
+                if x is y: dup = True; break
+                if isinstance(x, SentV) and isinstance(y, SentV) and it.fork(x.id == y.id): dup = True; break
+            if not dup: out.append(x)
+        return tuple(out)
+    from pytableaux.tools.hybrids import qsetf, qset
+    w.contract(qsetf, ordered_set, name='qsetf(xs) (C18: distinct items, first-occurrence order)')
+    w.contract(qset, ordered_set, name='qset(xs) (C18: distinct items, first-occurrence order)')
     w.builtin_models[itertools.chain.from_iterable] = chain_from_iterable
     w.builtin_models[itertools.chain] = chain
     def fset(it, xs=()):
